@@ -20,7 +20,9 @@ use std::fmt::Debug;
 /// serde_json's four entry points and the library's own decoding helpers (Json / JsonPretty interchange)
 pub const CHANNELS: [&str; 8] = ["str", "slice", "reader", "value", "json_slice", "json_reader", "json_tree", "jsonpretty_reader"];
 /// three spellings of the same document and three damaged texts that every channel must reject alike
-pub const SPELLINGS: [&str; 6] = ["plain", "ws", "uescape", "trailing_garbage", "concatenated", "truncated"];
+pub const SPELLINGS: [&str; 11] = ["plain", "ws", "uescape", "trailing_garbage", "concatenated", "truncated",
+    // padding that is NOT JSON white space (form feed, vertical tab, no-break space, byte order mark, NUL)
+    "pad_ff", "pad_vt", "pad_nbsp", "pad_bom", "pad_nul"];
 
 /// parse `text` through one channel; None = the channel could not even be fed (text is not JSON)
 pub fn parse_via<T: DeserializeOwned>(text: &str, channel: &str) -> Result<Result<T, String>, String> {
@@ -50,6 +52,11 @@ pub fn respell(text: &str, spelling: &str) -> String {
         "trailing_garbage" => format!("{text} x"),
         "concatenated" => format!("{text}{text}"),
         "truncated" => text[..text.len().saturating_sub(1)].to_string(),
+        "pad_ff" => format!("\u{c}{text}\u{c}"),
+        "pad_vt" => format!(" {text}\u{b}"),
+        "pad_nbsp" => format!("{text}\u{a0}"),
+        "pad_bom" => format!("\u{feff}{text}"),
+        "pad_nul" => format!("{text}\u{0}"),
         "ws" => spell_value(&v, SpellMode { reverse: false, spaces: true, escape_all: false, slash: false }),
         _ => spell_value(&v, SpellMode { reverse: true, spaces: false, escape_all: true, slash: false }),
     }
@@ -114,7 +121,7 @@ fn channels_x<T: DeserializeOwned + PartialEq + Debug>(text: &str, extra: ExtraC
     let mut agree = true;
     for sp in SPELLINGS {
         let t = respell(text, sp);
-        let damaged = matches!(sp, "trailing_garbage" | "concatenated" | "truncated");
+        let damaged = matches!(sp, "trailing_garbage" | "concatenated" | "truncated") || sp.starts_with("pad_");
         // what the reference channel (str) says about THIS text
         let reference: Result<Result<T, String>, String> = if damaged { parse_via(&t, "str") } else { parse_via(text, "str") };
         for ch in CHANNELS {
